@@ -68,7 +68,18 @@ def render(fn, n, depth=0):
     if k == 'this':
         return 'this'
     if k == 'ref':
-        return n['name'].split('::')[-1] if n['dk'] in ('param', 'local') else n['name']
+        if n['dk'] in ('param', 'local'):
+            # canonical names for the two ubiquitous roles, so that renaming a parameter does not change a rule's view
+            try:
+                ty = fn.ty(n).replace('const ', '').replace('&', '').strip()
+            except Exception:
+                ty = ''
+            if ty in ('aux::packet', 'sim::aux::packet', 'packet') and n['dk'] == 'param':
+                return 'p'
+            if ty in ('boost::system::error_code', 'error_code') and n['dk'] == 'param':
+                return 'ec'
+            return n['name'].split('::')[-1]
+        return n['name']
     if k == 'member':
         b = n.get('base')
         if b is not None and _is_this_like(b):
